@@ -833,10 +833,11 @@ def oracle_ticks(spec):
     if fs:
         exp = [float(Fraction(k) * Fraction(mpq) / (10 ** 6 * ppq)) for k in fs]
         got = [float(t2s(k)) for k in fs]
-        if not np.allclose(got, exp, rtol=1e-12, atol=0):
+        # (atol: a relative bound cannot be met in the subnormal range, e.g. 5e-324 ticks)
+        if not np.allclose(got, exp, rtol=1e-12, atol=1e-300):
             o.add("seconds-from-float-ticks-wrong", ticks=fs, got=got, expected=exp)
         got = t2s(np.array(fs, dtype=float))
-        if not isinstance(got, np.ndarray) or got.shape != (len(fs),) or not np.allclose(got, exp, rtol=1e-12, atol=0):
+        if not isinstance(got, np.ndarray) or got.shape != (len(fs),) or not np.allclose(got, exp, rtol=1e-12, atol=1e-300):
             o.add("seconds-array-wrong", ks=fs, got=repr(got)[:100])
         got = t2s(np.array([], dtype=np.int64))
         if not isinstance(got, np.ndarray) or got.shape != (0,):
